@@ -53,6 +53,11 @@ def check(ctx: Ctx) -> None:
         o.rule = "C10.R8"
     ctx.rule_text["C10.R8"] = ctx.rule_text.pop("C08.R1")
     ctx.floors["C10.R8"] = ctx.floors.pop("C08.R1")
+    from .c08 import pin_needs_hint
+    pin_needs_hint(ctx, "C10.R10")
+    r11(ctx)
+    r12(ctx)
+    r13(ctx)
 
 
 def _fold_digits(ctx: Ctx, f: FunctionInfo, e: ast.AST, at: int, depth: int = 0) -> Optional[str]:
@@ -224,7 +229,7 @@ def r2(ctx: Ctx) -> None:
 
 def r4(ctx: Ctx, rid: str) -> None:
     ctx.rule(rid, "no fail-open resolution: on the call tree of _current_version_info no handler converts a storage failure "
-             "into 'no table' (None); only the same-version mtime tie-break may default", 3)
+             "into 'no table' (None); only the same-version mtime tie-break may default", 2)
     root = ctx.fn(MM + "._current_version_info")
     fns = {root.qname: root}
     for f, n, _c in ctx.eff.transitive_calls(root):
@@ -296,8 +301,10 @@ def r5(ctx: Ctx) -> None:
                         if not (full or part):
                             continue
                         dels = [d for d in ctx.calls(f, storage="delete_file") if in_handler(d, h) and names_in(path_arg(d)) & mpath]
-                        if dels:
+                        if dels and full:
                             cleaned = True
+                        elif dels:
+                            pass  # cleans up only the sub-classes it names: the rest of `c` travels on outward
                         elif set(hcs) <= {"AmbiguousCommitError"}:
                             pass  # ambiguous: file must stay
                         elif full:
@@ -314,6 +321,134 @@ def r5(ctx: Ctx) -> None:
                f"{n_exits} exceptional exit class(es) examined after `{m0.text[:50]}`: a leftover v<N+1> file is what hint-less "
                "recovery picks (highest version), surfacing a version whose data files were rolled back",
                witness=bad[:8] or None)
+
+
+def r11(ctx: Ctx, rid: str = "C10.R11") -> None:
+    ctx.rule(rid, "versions are ordered as integers: the version group captured by the metadata-file regex is used only as the "
+             "direct argument of int() (or in messages) - never stored, compared or max()-ed as text ('v9' > 'v10')", 2)
+    mm = ctx.prog.cls(MM)
+    n_sites = 0
+    for m in mm.methods.values():
+        parents = {}
+        for p in ast.walk(m.node):
+            for c in ast.iter_child_nodes(p):
+                parents[id(c)] = p
+        # match variables of the metadata regex
+        mvars = {t.id for x in ast.walk(m.node) if isinstance(x, ast.Assign) and "_METADATA_FILE_RE" in norm_text(x.value)
+                 and isinstance(x.value, ast.Call) for t in x.targets if isinstance(t, ast.Name)}
+        if not mvars:
+            continue
+
+        def is_msg(node: ast.AST) -> bool:
+            p = parents.get(id(node))
+            while p is not None and not isinstance(p, ast.stmt):
+                if isinstance(p, (ast.JoinedStr, ast.FormattedValue)):
+                    return True
+                p = parents.get(id(p))
+            return False
+
+        def ok_use(node: ast.AST) -> bool:
+            p = parents.get(id(node))
+            return (isinstance(p, ast.Call) and isinstance(p.func, ast.Name) and p.func.id == "int" and p.args and p.args[0] is node) \
+                or is_msg(node)
+
+        for x in ast.walk(m.node):
+            if isinstance(x, ast.Call) and isinstance(x.func, ast.Attribute) and x.func.attr in ("group", "groups") \
+                    and isinstance(x.func.value, ast.Name) and x.func.value.id in mvars:
+                n_sites += 1
+                good = ok_use(x)
+                p = parents.get(id(x))
+                alias = None
+                if not good and isinstance(p, ast.Assign) and len(p.targets) == 1 and isinstance(p.targets[0], ast.Name) and p.value is x:
+                    alias = p.targets[0].id
+                    uses = [u for u in ast.walk(m.node) if isinstance(u, ast.Name) and u.id == alias and isinstance(u.ctx, ast.Load)]
+                    good = bool(uses) and all(ok_use(u) for u in uses)
+                ctx.ob(rid, m, "captured version text is converted with int() before any other use", None, good,
+                       f"`{norm_text(x)}`" + (f" via `{alias}`" if alias else "") + ": a version kept as text orders lexicographically "
+                       "- recovery then resolves a table with >= 10 versions to v9 and the next commit forks history",
+                       text=norm_text(x), line=x.lineno)
+    if n_sites < 2:
+        raise AnalysisError(f"only {n_sites} uses of the metadata-file regex's version group found")
+
+
+def r12(ctx: Ctx, rid: str = "C10.R12") -> None:
+    ctx.rule(rid, "version 0 is a version: no branch tests a version NUMBER for truthiness (`if not latest`) - absence is tested "
+             "with `is None`", 1)
+    mm = ctx.prog.cls(MM)
+    n_fn = 0
+    for m in mm.methods.values():
+        g = ctx.cfg(m)
+        rd = ctx.rd(m)
+        sl = ctx.slicer(m)
+
+        def is_int_version(e: ast.AST, at: int, depth: int = 0) -> bool:
+            if depth > 5:
+                return False
+            if isinstance(e, ast.Call) and isinstance(e.func, ast.Name) and e.func.id == "int":
+                return any(isinstance(c, ast.Call) and isinstance(c.func, ast.Attribute) and c.func.attr == "group" for c in ast.walk(e))
+            if isinstance(e, ast.Call) and isinstance(e.func, ast.Name) and e.func.id in ("max", "min"):
+                # max over version numbers: the slice of its arguments leads to int(<regex group>) and is not a tuple display
+                org = sl.origins(e, at)
+                has_int = any(isinstance(c, ast.Call) and isinstance(c.func, ast.Name) and c.func.id == "int"
+                              and any(isinstance(x, ast.Call) and isinstance(x.func, ast.Attribute) and x.func.attr == "group" for x in ast.walk(c))
+                              for c in org["calls"])
+                elt = e.args[0].elt if e.args and isinstance(e.args[0], (ast.GeneratorExp, ast.ListComp)) else None
+                return has_int and (elt is None or not isinstance(elt, (ast.Tuple, ast.List)))
+            if isinstance(e, ast.IfExp):
+                return is_int_version(e.body, at, depth + 1) or is_int_version(e.orelse, at, depth + 1)
+            if isinstance(e, ast.Name):
+                for d in rd.reaching(at, e.id):
+                    dn = g.nodes[d]
+                    if d != g.entry and isinstance(dn.ast, ast.Assign) and len(dn.ast.targets) == 1 and isinstance(dn.ast.targets[0], ast.Name) \
+                            and is_int_version(dn.ast.value, d, depth + 1):
+                        return True
+            return False
+
+        brs = [b for b in g.nodes if b.kind == "branch" and b.id in g.reachable() and isinstance(b.ast, ast.Name)]
+        if brs:
+            n_fn += 1
+        for b in brs:
+            if is_int_version(b.ast, b.id):
+                ctx.ob(rid, m, "a version number is tested with `is None`, not for truthiness", b, False,
+                       f"`{b.text}` holds a version number parsed from a metadata file name: version 0 (a table that was created "
+                       "but not yet committed to) is falsy, so recovery answers 'no metadata files' and the table is re-initialised "
+                       "over / reported missing")
+    ctx.ob(rid, mm.methods["refresh"], "truthiness tests in the manager examined", None, n_fn > 0, f"{n_fn} functions with truthiness branches",
+           nontrivial=False)
+
+
+def r13(ctx: Ctx, rid: str = "C10.R13") -> None:
+    ctx.rule(rid, "versions increase: the new metadata file is numbered <resolved current version> + 1; the constant start value "
+             "is used only when no version could be resolved", 2)
+    f = ctx.fn(MM + ".commit")
+    g = ctx.cfg(f)
+    sl = ctx.slicer(f)
+    nf = ctx.calls(f, name="_new_metadata_filename")
+    if not nf:
+        raise AnalysisError("_new_metadata_filename vanished from MetadataManager.commit")
+    for n in nf:
+        arg = n.ast.args[0] if isinstance(n.ast, ast.Call) and n.ast.args else None
+        org = sl.origins(arg, n.id)
+        plus1 = [x for e in org["exprs"] | ({arg} if arg is not None else set()) for x in ast.walk(e)
+                 if isinstance(x, ast.BinOp) and isinstance(x.op, ast.Add)
+                 and any(isinstance(y, ast.Constant) and y.value == 1 for y in (x.left, x.right))]
+        resolved = any(isinstance(c, ast.Call) and (dotted(c.func) or "").split(".")[-1] in ("_current_version_info", "_parse_hint_content")
+                       for c in org["calls"])
+        ctx.ob(rid, f, "new version = resolved version + 1", n, bool(plus1) and resolved,
+               "recovery without a pointer picks the highest version on disk: the numbering must follow the commit order")
+        # constant definitions of the version variable are guarded by `<version> is None`
+        vnames = {y.id for x in plus1 for y in (x.left, x.right) if isinstance(y, ast.Name)}
+        for d in sorted(org["nodes"]):
+            dn = g.nodes[d]
+            if dn.kind == "stmt" and isinstance(dn.ast, ast.Assign) and len(dn.ast.targets) == 1 and isinstance(dn.ast.targets[0], ast.Name) \
+                    and dn.ast.targets[0].id in vnames and isinstance(dn.ast.value, ast.Constant) and isinstance(dn.ast.value.value, int) \
+                    and not isinstance(dn.ast.value.value, bool):
+                v = dn.ast.targets[0].id
+                # the initial `= None` declaration is not an int constant; a second constant needs the null fact
+                known_null = any(pol == "null" and isinstance(e, ast.Name) and e.id == v for pol, e, _at in facts_at(ctx, f, dn))
+                ctx.ob(rid, f, "the constant start version is used only when nothing was resolved", dn, known_null,
+                       f"`{dn.text}` under `{v} is None`: an unconditional / inverted reset numbers every commit v1 - after a lost "
+                       "pointer recovery can no longer tell the latest version from any other")
 
 
 def r7(ctx: Ctx) -> None:
